@@ -52,3 +52,10 @@ Definition krange (k : nat) : list Z := map Z.of_nat (rev (seq 1 k)).
 Definition unrank (index n : Z) (k : nat) : result (list Z) :=
   let nck := init_nck n k in
   unrank_outer index (krange k) nck nck n.
+
+(* ---- vocabulary of the source-translation link (harness/src_functions.py, entries C15_GENERATE and C15_GET): the two builtin range calls the
+   function makes, as the lists they iterate.  (zip(a, b) is List.combine: pairs up to the shorter argument.) *)
+(* range(a, b) = a, a+1, ..., b-1 (empty when b <= a) *)
+Definition range_up (a b : Z) : list Z := map (fun i => a + Z.of_nat i) (seq 0 (Z.to_nat (b - a))).
+(* range(a, b, -1) = a, a-1, ..., b+1 (empty when a <= b) *)
+Definition range_down (a b : Z) : list Z := map (fun i => a - Z.of_nat i) (seq 0 (Z.to_nat (a - b))).
